@@ -171,7 +171,8 @@ std::complex<T> permanent_cpp(Matrix<std::complex<T>> &A, Vector<int> &rows, Vec
         int *gcode = gcode_counter.get();
 
         // calculate the initial column sum and binomial coefficient
-        int binomial_coeff = 1;
+        // NOTE: The product of binomial coefficients easily exceeds the range of `int`.
+        double binomial_coeff = 1.0;
 
         Matrix<TComplex> colsum(1, cols.size());
         std::uninitialized_copy_n(A.data, colsum.size(), colsum.data);
@@ -195,7 +196,8 @@ std::complex<T> permanent_cpp(Matrix<std::complex<T>> &A, Vector<int> &rows, Vec
             minus_signs_all += minus_signs;
 
             // update the binomial coefficient
-            binomial_coeff *= binomialCoeff<int>(row_mult_current, minus_signs);
+            binomial_coeff *= static_cast<double>(
+                binomialCoeff<int64_t>(row_mult_current, minus_signs));
         }
 
         // variable to refer to the parity of the delta vector (+1 if even, -1 if odd)
@@ -243,8 +245,10 @@ std::complex<T> permanent_cpp(Matrix<std::complex<T>> &A, Vector<int> &rows, Vec
             int row_mult_current = rows[changed_index + 1];
             binomial_coeff =
                 value < prev_value
-                    ? binomial_coeff * prev_value / (row_mult_current - value)
-                    : binomial_coeff * (row_mult_current - prev_value) / value;
+                    ? binomial_coeff * static_cast<double>(prev_value) /
+                          static_cast<double>(row_mult_current - value)
+                    : binomial_coeff * static_cast<double>(row_mult_current - prev_value) /
+                          static_cast<double>(value);
 
             addend_loc += colsum_prod * static_cast<T>(binomial_coeff);
         }
